@@ -388,6 +388,50 @@ fn run_xc(out: &mut CaseOut, w: usize, w2: usize) {
     }
 }
 
+/// A row that cannot be evaluated (its second entry divides by zero) is an error item; the caller goes on, and the
+/// row after it is reduced and bound like any other: nothing of the half-evaluated row is left over.
+fn run_after_error(out: &mut CaseOut, w: usize, w2: usize) {
+    out.class("row-after-a-row-that-cannot-be-evaluated");
+    let sigs = vec![
+        Sig { name: "I".into(), bits: w, kind: Kind::In(InVal::Val(0)) },
+        Sig { name: "J".into(), bits: w2, kind: Kind::In(InVal::Val(0)) },
+        Sig { name: "O".into(), bits: w, kind: Kind::Out },
+    ];
+    let header: Vec<String> = ["I", "J", "O"].iter().map(|s| s.to_string()).collect();
+    let (v1, v4, v5, v6): (i64, i64, i64, i64) = (1, -3, 300, -2);
+    let k = |v: i64| Entry::Paren(Expr::konst(v));
+    let stmts = vec![
+        Stmt::Row(0, vec![k(v1), Entry::Paren(Expr::bin(BinOp::Div, Expr::lit(7), Expr::lit(0))), k(v6)]),
+        Stmt::Row(1, vec![k(v4), k(v5), k(v6)]),
+    ];
+    let text = canonical(&Program { header, stmts }).text;
+    let spec = DriverSpec::honest(&sigs, 7, Palette::Small);
+    let Ok(tc) = load(&text, &sigs) else { return };
+    let real = run_real(&tc, &sigs, &spec, &RunOpts { max_next: 4, continue_after_error: true, ..Default::default() });
+    let (Some(RealItem::RuntimeErr(_)), Some(RealItem::Row(r))) = (real.items.first(), real.items.get(1)) else {
+        if let Some(RealItem::Panic(p)) = real.items.iter().find(|i| matches!(i, RealItem::Panic(_))) {
+            out.fail(p.key(), format!("panicked: {p}"));
+        }
+        return;
+    };
+    if real.log.len() != 2 {
+        return;
+    }
+    let sent = &real.log[1].inputs;
+    let get = |n: &str| sent.iter().find(|e| e.0 == n).map(|e| e.1);
+    let exp = r.outputs.iter().find(|o| o.name == "O").map(|o| o.expected);
+    if get("I") != Some(InVal::Val(reduce(v4, w))) || get("J") != Some(InVal::Val(reduce(v5, w2))) {
+        out.fail(
+            "c07:input-not-reduced",
+            format!("`({v1}) (7/0) ({v6})` (an error item, the caller goes on) then `({v4}) ({v5}) ({v6})` on inputs I ({w} bits), J ({w2} bits): the driver received I={:?} J={:?}, should be {} and {}", get("I"), get("J"), reduce(v4, w), reduce(v5, w2)),
+        );
+        return;
+    }
+    if exp != Some(ExpVal::Val(reduce(v6, w))) {
+        out.fail("c07:expected-not-reduced", format!("the row after a row that could not be evaluated: expected value of the {w}-bit O is {exp:?}, should be {}", reduce(v6, w)));
+    }
+}
+
 impl Property for C07 {
     fn id(&self) -> &'static str {
         "C07"
@@ -488,6 +532,9 @@ impl Property for C07 {
         out.nontrivial = w >= 33 || above;
         if xc {
             run_xc(&mut out, w.max(2), if w % 2 == 0 { 1 } else { 5 });
+            if !out.is_fail() {
+                run_after_error(&mut out, w, if w % 2 == 0 { 3 } else { 9 });
+            }
             return out;
         }
         run_batch(&mut out, w, &vals, &via, zx, &s[1], fail_at, with_bits, wide);
